@@ -7,12 +7,15 @@ pub mod c02;
 pub mod c03;
 pub mod c04;
 pub mod c05;
+pub mod c06;
 pub mod c07;
 pub mod c08;
 pub mod c09;
 pub mod c12;
 pub mod c13;
 pub mod c14;
+pub mod c15;
+pub mod c16;
 pub mod c19;
 pub mod c20;
 pub mod mergefam;
@@ -22,12 +25,15 @@ pub fn all() -> Vec<Box<dyn Property>> {
         Box::new(c03::prop()),
         Box::new(c04::prop()),
         Box::new(c05::prop()),
+        Box::new(c06::prop()),
         Box::new(c07::prop()),
         Box::new(c08::prop()),
         Box::new(c09::prop()),
         Box::new(c12::prop()),
         Box::new(c13::prop()),
         Box::new(c14::prop()),
+        Box::new(c15::prop()),
+        Box::new(c16::prop()),
         Box::new(c19::prop()),
         Box::new(c20::prop()),
     ]
